@@ -191,6 +191,15 @@ static INLINE void SpatialFullDistortionKernel64_AVX512_INTRIN(const uint8_t *co
     *sum                 = _mm512_add_epi32(*sum, dist);
 }
 
+// sum of the eight unsigned 32-bit partial sums of a register, in 64 bits (the total of a large area does not fit in 32)
+static INLINE uint64_t hadd32_to_u64_avx512(const __m256i src) {
+    const __m256i lo = _mm256_cvtepu32_epi64(_mm256_castsi256_si128(src));
+    const __m256i hi = _mm256_cvtepu32_epi64(_mm256_extracti128_si256(src, 1));
+    const __m256i s  = _mm256_add_epi64(lo, hi);
+    const __m128i t  = _mm_add_epi64(_mm256_castsi256_si128(s), _mm256_extracti128_si256(s, 1));
+    return (uint64_t)_mm_extract_epi64(t, 0) + (uint64_t)_mm_extract_epi64(t, 1);
+}
+
 uint64_t svt_spatial_full_distortion_kernel_avx512(uint8_t *input, uint32_t input_offset,
                                                    uint32_t input_stride, uint8_t *recon,
                                                    int32_t recon_offset, uint32_t recon_stride,
@@ -227,7 +236,7 @@ uint64_t svt_spatial_full_distortion_kernel_avx512(uint8_t *input, uint32_t inpu
                 sum_h              = _mm256_extracti128_si256(sum, 1);
                 s                  = _mm_add_epi32(sum_l, sum_h);
                 s                  = _mm_add_epi32(s, _mm_srli_si128(s, 4));
-                spatial_distortion = _mm_cvtsi128_si32(s);
+                spatial_distortion = (uint32_t)_mm_cvtsi128_si32(s);
                 return spatial_distortion;
             }
         } else if (leftover == 8) {
@@ -357,12 +366,12 @@ uint64_t svt_spatial_full_distortion_kernel_avx512(uint8_t *input, uint32_t inpu
 
             const __m256i sum512_L = _mm512_castsi512_si256(sum512);
             const __m256i sum512_H = _mm512_extracti64x4_epi64(sum512, 1);
-            sum                    = _mm256_add_epi32(sum, sum512_L);
-            sum                    = _mm256_add_epi32(sum, sum512_H);
+            return hadd32_to_u64_avx512(sum) + hadd32_to_u64_avx512(sum512_L) +
+                hadd32_to_u64_avx512(sum512_H);
         }
     }
 
-    return hadd32_avx2_intrin(sum);
+    return hadd32_to_u64_avx512(sum);
 }
 
 #endif // EN_AVX512_SUPPORT
